@@ -44,18 +44,63 @@ Proof.
     apply in_map_iff. exists (l_rng x). split; [destruct x; cbn in *; subst; reflexivity|exact Hr].
 Qed.
 
-(* which journals are consulted: with a resolved journal whose primary is the current
-   document's own AST, every file is consulted under its own path *)
-Lemma all_journals_from_primary files pj current cj p j :
-  In (p, j) (all_journals files (Some pj) true current cj) <->
-  (p = current /\ j = pj) \/ (p <> current /\ In (p, j) files).
+(* which journals are consulted, and under which path: every file under its OWN path --
+   the requesting document (as just parsed when the tree's primary is another file), the tree's
+   primary under the path it was parsed from, every other file of the tree under its own *)
+Lemma jput_in p0 j0 (m : jmap) p j : In (p, j) (jput p0 j0 m) <-> (p = p0 /\ j = j0) \/ (p <> p0 /\ In (p, j) m).
 Proof.
-  unfold all_journals, jput. cbn [In]. rewrite filter_In. cbn [fst]. split.
+  unfold jput. cbn [In]. rewrite filter_In. cbn [fst]. split.
   - intros [H|[H1 H2]]; [inversion H; auto|]. right. split; [|exact H1]. intro E. subst. rewrite N.eqb_refl in H2. discriminate.
-  - intros [[-> ->]|[H1 H2]]; [left; reflexivity|]. right. split; [exact H2|]. destruct (p =? current)%N eqn:E; [lia|reflexivity].
+  - intros [[-> ->]|[H1 H2]]; [left; reflexivity|]. right. split; [exact H2|]. destruct (p =? p0)%N eqn:E; [lia|reflexivity].
 Qed.
 
-(* ---- refutation: workspace mode, request from an included file ---- *)
+Lemma jdel_in p0 (m : jmap) p j : In (p, j) (jdel p0 m) <-> p <> p0 /\ In (p, j) m.
+Proof.
+  unfold jdel. rewrite filter_In. cbn [fst]. split.
+  - intros [H1 H2]. split; [|exact H1]. intro E. subst. rewrite N.eqb_refl in H2. discriminate.
+  - intros [H1 H2]. split; [exact H2|]. destruct (p =? p0)%N eqn:E; [lia|reflexivity].
+Qed.
+
+Lemma all_journals_from_primary files pj current cj p j :
+  In (p, j) (all_journals files (Some pj) true current current cj) <->
+  (p = current /\ j = pj) \/ (p <> current /\ In (p, j) files).
+Proof. unfold all_journals. rewrite N.eqb_refl. apply jput_in. Qed.
+
+Lemma all_journals_from_elsewhere files pj pp current cj p j : pp <> current ->
+  In (p, j) (all_journals files (Some pj) true pp current cj) <->
+  (p = current /\ j = cj) \/ (p = pp /\ j = pj) \/ (p <> current /\ p <> pp /\ In (p, j) files).
+Proof.
+  intro NE. unfold all_journals. destruct (pp =? current)%N eqn:E; [lia|].
+  rewrite jput_in, jput_in, jdel_in. split.
+  - intros [H|[H1 [[-> ->]|[H2 [H3 H4]]]]]; auto.
+  - intros [H|[[-> ->]|(H1 & H2 & H3)]]; [left; exact H|right; split; [exact NE|left; auto]|right; split; [exact H1|right; auto]].
+Qed.
+
+(* the C09 statement for the set of journals: given the resolved tree (its primary parsed from
+   `pp`, the other files in `files`, each once) every (path, journal) pair consulted is a file of the
+   tree under its own path, or the requesting document; nothing of the tree is left out except the
+   tree's stale copy of the requesting document *)
+Theorem consulted_journals_own_paths files pj pp current cj p j :
+  In (p, j) (all_journals files (Some pj) true pp current cj) ->
+  (p = current /\ (j = cj \/ (pp = current /\ j = pj))) \/ (p = pp /\ j = pj) \/ In (p, j) files.
+Proof.
+  destruct (N.eq_dec pp current) as [->|NE].
+  - rewrite all_journals_from_primary. intros [[-> ->]|[_ H]]; auto.
+  - rewrite (all_journals_from_elsewhere _ _ _ _ _ _ _ NE). intros [[-> ->]|[[-> ->]|(_ & _ & H)]]; auto.
+Qed.
+
+Theorem tree_files_are_consulted files pj pp current cj p j :
+  (p = pp /\ j = pj) \/ In (p, j) files -> p <> current ->
+  (pp <> current -> ~ In pp (map fst files)) ->
+  In (p, j) (all_journals files (Some pj) true pp current cj).
+Proof.
+  intros H NC Hpp. destruct (N.eq_dec pp current) as [->|NE].
+  - rewrite all_journals_from_primary. destruct H as [[-> _]|H]; [contradiction|]. right. auto.
+  - rewrite (all_journals_from_elsewhere _ _ _ _ _ _ _ NE). destruct H as [[-> ->]|H]; [right; left; auto|].
+    right. right. split; [exact NC|]. split; [|exact H]. intros ->. apply (Hpp NE). apply (in_map fst) in H. exact H.
+Qed.
+
+(* ---- sample: workspace mode, request from an included file ---- *)
 Definition mkp (acct : string) (line : Z) : posting :=
   mkPosting StNone (bs acct) (mkRng (mkPos line 5 0) (mkPos line 8 0)) None None None [] [] VNone rng0.
 Definition mkt (line : Z) (ps : list posting) : transaction :=
@@ -63,10 +108,9 @@ Definition mkt (line : Z) (ps : list posting) : transaction :=
 Definition root_ast : journal := mkJournal [mkt 2 [mkp "a:b" 3]] [] [] [].     (* main.journal: uses a:b on line 3 *)
 Definition sub_ast : journal := mkJournal [mkt 1 [mkp "a:b" 2; mkp "c:d" 7]] [] [] [].  (* sub.journal: a:b on line 2 *)
 
-(* the workspace's resolved journal has Primary = root and Files = {sub}; the request comes from sub (path 1) *)
-Lemma from_include_refuted :
-  find_references KAccount (bs "a:b") true (all_journals [(1%N, sub_ast)] (Some root_ast) true 1%N sub_ast)
-  = [mkLoc 1 (mkPR 2 4 2 7)]   (* the ROOT's occurrence (line 3), filed under sub's path; sub's own (line 2) is gone *)
-  /\ find_references KAccount (bs "a:b") true [(1%N, sub_ast); (3%N, root_ast)]
-     = [mkLoc 1 (mkPR 1 4 1 7); mkLoc 3 (mkPR 2 4 2 7)].
-Proof. split; vm_compute; reflexivity. Qed.
+(* the workspace's resolved journal has Primary = root (path 3) and Files = {sub}; the request comes
+   from sub (path 1): each occurrence is attributed to the file that contains it *)
+Lemma from_include_sample :
+  find_references KAccount (bs "a:b") true (all_journals [(1%N, sub_ast)] (Some root_ast) true 3%N 1%N sub_ast)
+  = [mkLoc 1 (mkPR 1 4 1 7); mkLoc 3 (mkPR 2 4 2 7)].
+Proof. vm_compute. reflexivity. Qed.
